@@ -301,3 +301,10 @@ impl std::fmt::Debug for RotoFilterRunner {
 #[cfg(test)]
 mod tests {
 }
+
+/// Verification hooks for the bridge RotoRib (feature `verif-hooks`,
+/// add-only); a child module because the runner and its fields are private
+/// here.
+#[cfg(feature = "verif-hooks")]
+#[path = "verif_hooks_rotorib.rs"]
+pub mod verif_hooks_rotorib;
